@@ -13,13 +13,14 @@ def design(ctx):
     from ..tlc import MachineryError
     t = open(os.path.join(tlc.SPEC, "AnalysisGen.cfg.tmpl")).read()
     n = 4 if ctx.quick else 5
-    r = tlc.run("MCA_rules", t.replace("@POLL@", "FALSE").replace("@BCE@", "FALSE").replace("@MAXLEN@", str(n)), workers=8, timeout=1800, heap="8g")
+    r = tlc.run("MCA_rules", t.replace("@POLL@", "FALSE").replace("@BCE@", "FALSE").replace("@DOT@", "FALSE").replace("@MAXLEN@", str(n)), workers=8, timeout=1800, heap="8g")
     ctx.add_tlc(f"design:Analysis>=Floor:len{n}", r)
     if not r["ok"]:
         ctx.drift.append("design model of the rule set does not dominate the floor: " + r["error"][:300].replace("\n", " "))
-    for poll, bce, name in (("TRUE", "FALSE", "BadCalls pollutes the de-duplication set"),
-                            ("FALSE", "TRUE", "BadCalls skips names bound by a standard-library import (io.open is the builtin)")):
-        rn = tlc.run("MCA_rules", t.replace("@POLL@", poll).replace("@BCE@", bce).replace("@MAXLEN@", "4"), workers=8, timeout=900)
+    for poll, bce, dot, name in (("TRUE", "FALSE", "FALSE", "BadCalls pollutes the de-duplication set"),
+                                 ("FALSE", "TRUE", "FALSE", "BadCalls skips names bound by a standard-library import (io.open is the builtin)"),
+                                 ("FALSE", "FALSE", "TRUE", "the exemption looks at the first component of a dotted callee (glob + os.system)")):
+        rn = tlc.run("MCA_rules", t.replace("@POLL@", poll).replace("@BCE@", bce).replace("@DOT@", dot).replace("@MAXLEN@", "4"), workers=8, timeout=900)
         if rn["ok"]:
             raise MachineryError(f"negative design model ({name}) was not refuted")
         ctx.notes.append(f"negative design model ({name}) refuted by TLC as expected")
